@@ -18,6 +18,15 @@ import re
 BOOL = ("bool",)
 WILD = ("_",)
 MAXVALUES = 4096
+STRUCTS = ("struct", "nstruct", "class", "nclass")      # one constructor named like the type; n* = named fields f0, f1, ..
+NAMED = ("nstruct", "nclass")
+
+
+def ctor_prefix(t, vi):
+    style = t[1]
+    if style == "enum":
+        return t[2] + "::" + t[3][vi][0]
+    return t[2] if style in STRUCTS else t[3][vi][0]
 
 
 # ----------------------------------------------------------------------------------------------------------- literals
@@ -166,6 +175,14 @@ def contains_kind(t, kind):
     return False
 
 
+def has_style(t, styles):
+    if t[0] == "enum":
+        return t[1] in styles or any(has_style(f, styles) for _, fs in t[3] for f in fs)
+    if t[0] == "tuple":
+        return any(has_style(f, styles) for f in t[1])
+    return False
+
+
 def lit_expr(kind, key):
     if key == FRESH[kind][0]:
         return FRESH[kind][1]
@@ -182,8 +199,8 @@ def value_text(v, t):
         return lit_expr(t[1], t[2][i]) if i < len(t[2]) else FRESH[t[1]][1]
     if k == "enum":
         vn, fs = t[3][v[0]]
-        pre = {"enum": t[2] + "::" + vn, "struct": t[2]}.get(t[1], vn)
-        return pre + ("(" + ", ".join(value_text(x, f) for x, f in zip(v[1:], fs)) + ")" if fs else "")
+        nm = ["f%d = " % j if t[1] in NAMED else "" for j in range(len(fs))]
+        return ctor_prefix(t, v[0]) + ("(" + ", ".join(n + value_text(x, f) for n, x, f in zip(nm, v[1:], fs)) + ")" if fs else "")
     return "(" + ", ".join(value_text(x, f) for x, f in zip(v[1:], t[1])) + ")"
 
 
@@ -335,7 +352,9 @@ def features(p, acc=None, d=0, in_alt=False):
     if k in ("ctor", "tup"):
         rest = p[3] if k == "ctor" else p[2]
         n = len(children(p))
-        if rest is not None:
+        if rest is not None and rest[0] == "named":
+            acc["flags"].add("named")
+        elif rest is not None:
             if k == "tup":
                 acc["flags"].add("rest-tuple")
             elif rest[0] + rest[1] == n:
@@ -368,10 +387,23 @@ def render(p, t, spans=None, path=(), off=0):
     else:
         if k == "ctor":
             vn, fs = t[3][p[1]]
-            pre = {"enum": t[2] + "::" + vn, "struct": t[2]}.get(t[1], vn)
+            pre = ctor_prefix(t, p[1])
             subs, rest = p[2], p[3]
             if not fs:
                 s = pre
+                if spans is not None:
+                    spans[path] = (off, len(s))
+                return s
+            if rest is not None and rest[0] == "named":      # ("named", order of the fields written, trailing `..`)
+                parts = []
+                o = off + len(pre) + 1
+                for j in rest[1]:
+                    x = render(subs[j], fs[j], spans, path + (j,), o + len("f%d = " % j))
+                    parts.append("f%d = %s" % (j, x))
+                    o += len(parts[-1]) + 2
+                if rest[2]:
+                    parts.append("..")
+                s = pre + "(" + ", ".join(parts) + ")"
                 if spans is not None:
                     spans[path] = (off, len(s))
                 return s
@@ -423,7 +455,7 @@ class Match:
                 flags.add("guard")
         if contains_kind(self.ty, "lit"):
             flags.add("lit")
-        for top in ("rest-nontrailing", "rest-tuple", "rest-trailing", "nestedalt", "lit", "alt", "guard"):
+        for top in ("rest-nontrailing", "rest-tuple", "rest-trailing", "named", "nestedalt", "lit", "alt", "guard"):
             if top in flags:
                 coarse = top
                 break
@@ -608,16 +640,30 @@ def parse_witnesses(text, t):
         pos[0] += 1
         return tk
 
-    def plist(types, what):
+    def plist(types, what, named=False):
         eat("(")
         out = []
+        seen = {}
         while peek() != ")":
-            if len(out) >= len(types):
-                raise WitnessError("too many sub-patterns for %s in %r" % (what, text))
-            out.append(pat(types[len(out)]))
+            if named:       # `f1 = pattern`
+                nm = eat()
+                mm = re.match(r"f(\d+)$", nm)
+                if not mm or int(mm.group(1)) >= len(types) or int(mm.group(1)) in seen:
+                    raise WitnessError("bad field name %r for %s in %r" % (nm, what, text))
+                eat("=")
+                seen[int(mm.group(1))] = pat(types[int(mm.group(1))])
+                out.append(None)
+            else:
+                if len(out) >= len(types):
+                    raise WitnessError("too many sub-patterns for %s in %r" % (what, text))
+                out.append(pat(types[len(out)]))
             if peek() == ",":
                 eat(",")
         eat(")")
+        if named and out:
+            if len(seen) != len(types):
+                raise WitnessError("%s names %d of %d fields in %r" % (what, len(seen), len(types), text))
+            return [seen[j] for j in range(len(types))]
         return out
 
     def pat(ty):
@@ -645,7 +691,7 @@ def parse_witnesses(text, t):
             if ty[0] != "enum":
                 raise WitnessError("constructor %s where a %s is expected in %r" % ("::".join(segs), type_text(ty), text))
             style = ty[1]
-            if style == "struct":
+            if style in STRUCTS:
                 if segs[-1] != ty[2]:
                     raise WitnessError("constructor %s is not struct %s in %r" % ("::".join(segs), ty[2], text))
                 vi = 0
@@ -659,7 +705,7 @@ def parse_witnesses(text, t):
                 vi = names.index(segs[-1])
             fs = ty[3][vi][1]
             if peek() == "(":
-                subs = plist(fs, "::".join(segs))
+                subs = plist(fs, "::".join(segs), style in NAMED)
                 if len(subs) == 0:
                     subs = [WILD] * len(fs)      # `E::V()` -- printed for a missing constructor: any payload
                 elif len(subs) != len(fs):
@@ -719,8 +765,10 @@ class MkRegistry:
                     style = t[1]
                     if style == "enum":
                         ctor = "%s::%s" % (t[2], vn)
-                    elif style == "struct":
+                    elif style in STRUCTS:
                         ctor = t[2]
+                        if style in NAMED:
+                            args = ["f%d = %s" % (j, a) for j, a in enumerate(args)]
                     else:       # Option[T] / Result[A, B]: Some[T](..), None[T]
                         ctor = vn + t[2][t[2].index("["):]
                     expr = ctor + ("(" + ", ".join(args) + ")" if fs else "")
@@ -768,8 +816,9 @@ def runtime_program(enum_defs, matches_):
 class Pool:
     """Per-file universe of user-defined enums/structs."""
 
-    def __init__(self, rng, lits=False, wide=False):
+    def __init__(self, rng, lits=False, wide=False, named=False):
         self.rng = rng
+        self.named = named      # structs/classes, also with named fields
         self.lits = lits
         self.wide = wide        # prefer constructors with several fields (for `..` patterns)
         self.defs = []          # Dora text of the definitions
@@ -777,11 +826,15 @@ class Pool:
         self.n = 0
 
     def _define(self, style, variants):
-        name = ("S%d" if style == "struct" else "E%d") % self.n
+        name = ("S%d" if style in STRUCTS else "E%d") % self.n
         self.n += 1
         t = enum_ty(style, name, variants)
-        if style == "struct":
-            self.defs.append("struct %s(%s)" % (name, ", ".join(type_text(f) for f in variants[0][1])))
+        if style in STRUCTS:
+            kw = "struct" if "struct" in style else "class"
+            if style in NAMED:
+                self.defs.append("%s %s { %s }" % (kw, name, ", ".join("f%d: %s" % (j, type_text(f)) for j, f in enumerate(variants[0][1]))))
+            else:
+                self.defs.append("%s %s(%s)" % (kw, name, ", ".join(type_text(f) for f in variants[0][1])))
         else:
             self.defs.append("enum %s { %s }" % (name, ", ".join(
                 vn + ("(" + ", ".join(type_text(f) for f in fs) + ")" if fs else "") for vn, fs in variants)))
@@ -837,8 +890,9 @@ class Pool:
             return result_ty(self._gen(d - 1), self._gen(0))
         if len(self.enums) >= 24:
             return rng.choice(self.enums) if rng.random() < 0.7 else self.leaf()
-        if r < 0.70:
-            return self._define("struct", [("", [self._gen(d - 1 if rng.random() < 0.5 else 0) for _ in range(rng.choice([1, 2, 2, 3]))])])
+        if r < 0.70 or (self.named and r < 0.85):
+            style = rng.choice(["nstruct", "nclass", "nstruct", "nclass", "class", "struct"]) if self.named else "struct"
+            return self._define(style, [("", [self._gen(d - 1 if rng.random() < 0.5 else 0) for _ in range(rng.choice([1, 2, 2, 3]))])])
         if r < 0.80 and self.enums:
             c = [t for t in self.enums if depth(t) <= d]
             if c:
@@ -1039,6 +1093,8 @@ class PatGen:
         rows = rows[:maxrows]
         if rng.random() < 0.03:
             rows = [self.altbind(t)] + rows[:maxrows - 1]
+        if self.family == "named":
+            rows = [name_fields(p, t, rng) for p in rows]
         arms = []
         ng = 0
         pg = rng.choice([0.0, 0.0, 0.15, 0.3])
@@ -1082,6 +1138,26 @@ class PatGen:
             r = ("alt", tuple(alts))
         self.p_rest = p_rest
         return self.add_rest(r) if p_rest else r
+
+
+def name_fields(p, t, rng):
+    """Constructor patterns of types with named fields are written `T(f1 = p, f0 = q)` / `T(f1 = p, ..)`."""
+    k = p[0]
+    if k == "alt":
+        return ("alt", tuple(name_fields(q, t, rng) for q in p[1]))
+    if k == "tup":
+        return ("tup", tuple(name_fields(q, f, rng) for q, f in zip(p[1], t[1])), p[2])
+    if k != "ctor":
+        return p
+    fs = t[3][p[1]][1]
+    subs = tuple(name_fields(q, f, rng) for q, f in zip(p[2], fs))
+    rest = p[3]
+    if t[1] in NAMED and fs:
+        order = list(range(len(fs)))
+        rng.shuffle(order)
+        keep = [j for j in order if subs[j][0] != "_" or rng.random() < 0.4]
+        rest = ("named", tuple(keep), len(keep) < len(fs) or rng.random() < 0.15)
+    return ("ctor", p[1], subs, rest)
 
 
 def strip_binds(p):
@@ -1155,7 +1231,7 @@ def dense_match(rng, pool):
 
 def gen_file(rng, family, nmatches):
     """One file worth of sampled matches: (enum definitions, [Match])."""
-    pool = Pool(rng, lits=(family == "lit"), wide=(family in ("restm", "rest")))
+    pool = Pool(rng, lits=(family == "lit"), wide=(family in ("restm", "rest")), named=(family == "named"))
     out = []
     for _ in range(nmatches):
         if family == "dense":
@@ -1171,6 +1247,19 @@ def gen_file(rng, family, nmatches):
             if family == "restm" and not (t[0] == "enum" and any(len(fs) >= 2 for _, fs in t[3])):
                 c = [e for e in pool.enums if nvalues(e) <= cap and any(len(fs) >= 2 for _, fs in e[3])]
                 t = rng.choice(c) if c else pool._define("enum", [("V0", [BOOL, pool.leaf()]), ("V1", [])])
+            if family == "named" and not has_style(t, NAMED) and rng.random() < 0.85:
+                c = [e for e in pool.enums if e[1] in NAMED and nvalues(e) <= cap]
+                if c and rng.random() < 0.5:
+                    t = rng.choice(c)
+                else:
+                    fs = [pool.leaf() for _ in range(rng.choice([1, 2, 2, 3]))]
+                    if nvalues(t) <= 64 and depth(t) < 3:
+                        fs[rng.randrange(len(fs))] = t
+                    t = pool._define(rng.choice(NAMED), [("", fs)])
+                    if nvalues(t) > MAXVALUES:
+                        t = pool._define(rng.choice(NAMED), [("", [BOOL, pool.leaf()])])
+                if rng.random() < 0.3:
+                    t = rng.choice([option_ty(t), tuple_ty([BOOL, t])])
             if family == "restt" and t[0] != "tuple":
                 t = tuple_ty([pool.leaf(), t] if rng.random() < 0.5 else [t, pool.leaf(), BOOL])
                 if nvalues(t) > MAXVALUES:
